@@ -155,7 +155,7 @@ def generate(rng, tier, i):
         fin = True
         N = rng.randint(1, 3)
     elif cls == "peaky":
-        kind = "peaky"
+        kind = "peaky" if rng.random() < 0.6 else "very_peaky"
         width = rng.choice([1, 2, 3, 5, 9, 20])
     elif cls == "unbatched":
         N = None
